@@ -122,8 +122,13 @@ def convert_response(response) -> List[Trigger]:
     all_triggers: Dict[str, Trigger] = {}
     for r in response:
         # from the incoming tracepoints create a Trigger with actions
-        trigger = build_trigger(r.ID, r.path, r.line_number, dict(r.args), [w for w in r.watches],
-                                __convert_metric_definition(r.metrics))
+        try:
+            trigger = build_trigger(r.ID, r.path, r.line_number, dict(r.args), [w for w in r.watches],
+                                    __convert_metric_definition(r.metrics))
+        except Exception:
+            # e.g. a metric of a type we do not know (sent by a newer service): as below, only this tracepoint is lost
+            logging.exception("Cannot interpret tracepoint %s", r.ID)
+            trigger = None
         if trigger is None:
             # we cannot interpret this tracepoint (e.g. unknown stage), the rest of the response is still valid
             logging.warning("Cannot process tracepoint %s, skipping it.", r.ID)
